@@ -40,7 +40,7 @@ FEAT = dict(
     n_monitors=(0, 1), n_agents=(1, 2), depth=2, block_len=(1, 3), max_steps=(2, 6),
     w_try=0, w_do=1, w_do_for=1, w_do_until=1, w_while=0, w_loop=1, w_if=1,
     p_termwhen=1, p_termsimwhen=1, p_termafter=1, p_ltl=0, p_record=1, w_require=0,
-    w_terminate=1, w_terminatesim=0, p_until_random=3,
+    w_terminate=1, w_terminatesim=0, p_until_random=3, p_flags=3,
 )
 
 prepare = dyncommon.prepare
@@ -59,7 +59,7 @@ def outcome_key(o):
     return json.dumps([o["kind"], o.get("time")])
 
 
-def impl_law(scene, tables, schedule, max_steps, timestep):
+def impl_law(scene, tables, schedule, max_steps, timestep, raise_guards=False):
     law = {}
     nonexact = False
     side = 0
@@ -67,7 +67,7 @@ def impl_law(scene, tables, schedule, max_steps, timestep):
     def execute():
         userlib.reset()
         userlib.CTX.tables = {int(k): list(v) for k, v in tables.items()}
-        return dynrun.simulate_scene(scene, schedule, max_steps, timestep)
+        return dynrun.simulate_scene(scene, schedule, max_steps, timestep, raise_guards)
 
     leaves = 0
     for o, p, rng in seams.walk_tree(execute, strata=4, max_leaves=MAX_LEAVES):
@@ -102,13 +102,13 @@ class RefBrancher:
         return None
 
 
-def ref_law(prog, tables, schedule, max_steps, pins):
+def ref_law(prog, tables, schedule, max_steps, pins, raise_guards=False):
     law = {}
     prefix = []
     leaves = 0
     while prefix is not None:
         br = RefBrancher(prefix)
-        r = dyn.Ref(prog, tables, schedule, max_steps, pins=pins, rng=br).run()
+        r = dyn.Ref(prog, tables, schedule, max_steps, pins=pins, rng=br, raise_guards=raise_guards).run()
         leaves += 1
         if leaves > 4 * MAX_LEAVES:
             raise dyn.Unsupported("reference tree too large")
@@ -158,7 +158,10 @@ def run(tape):
             stats["scene-reject"] = stats.get("scene-reject", 0) + 1
             continue
         try:
-            ilaw, leaves, nonexact, side = impl_law(scene, tables, schedule, max_steps, prog["timestep"])
+            # every second environment runs with raiseGuardViolations: a guard violation then raises,
+            # but "no item is eligible" stays a rejection
+            rg = e % 2 == 1
+            ilaw, leaves, nonexact, side = impl_law(scene, tables, schedule, max_steps, prog["timestep"], rg)
         except seams.TreeTooLarge:
             stats["skipped:tree_too_large"] = stats.get("skipped:tree_too_large", 0) + 1
             dynrun.sanitize()
@@ -178,7 +181,7 @@ def run(tape):
         rlaw = None
         try:
             for combo in itertools.product((True, False), repeat=len(pin_names)):
-                rlaw = ref_law(prog, tables, schedule, max_steps, dict(zip(pin_names, combo)))
+                rlaw = ref_law(prog, tables, schedule, max_steps, dict(zip(pin_names, combo)), rg)
                 if rlaw == ilaw:
                     verdict = "ok" if all(combo) else "pinned"
                     break
@@ -201,7 +204,7 @@ def run(tape):
             dynrun._COMPILED.clear()
             scenario = dynrun.compile_prog(src, top=None if prog["flat"] else "Main", cache=False)
         if verdict == "diff":
-            rl = ref_law(prog, tables, schedule, max_steps, None)
+            rl = ref_law(prog, tables, schedule, max_steps, None, rg)
             only_impl = sorted((str(p), k[:400]) for k, p in ilaw.items() if rl.get(k) != p)[:6]
             only_ref = sorted((str(p), k[:400]) for k, p in rl.items() if ilaw.get(k) != p)[:6]
             sample = desc
